@@ -63,17 +63,50 @@ class AttrRouting(Contract):
                     for in_attrs in (False, True):
                         yield {"name": "%s-%s-%s-%s" % (kind, op, nclass, "inattrs" if in_attrs else "absent"),
                                "kind": kind, "op": op, "nclass": nclass, "in_attrs": in_attrs}
+            # The strings the routing code itself singles out -- every entry of the class's own __metadata_include__ /
+            # __metadata_exclude__ lists (read from the REAL class on every run, along its whole MRO) -- are name classes of
+            # their own.  What must happen to them follows from what they look like: an underscore name or a class member
+            # "never enters attrs" whatever list it is on; anything else is an ordinary public name.
+            for listed in self._listed_names(kind):
+                for op in ("get", "set", "del"):
+                    for in_attrs in (False, True):
+                        yield {"name": "%s-%s-listed:%s-%s" % (kind, op, listed, "inattrs" if in_attrs else "absent"),
+                               "kind": kind, "op": op, "nclass": "listed", "listed": listed, "in_attrs": in_attrs}
+
+    @staticmethod
+    def _listed_names(kind):
+        from dverif import loader
+        cls = getattr(loader.load(), kind)
+        out = []
+        for k in cls.__mro__:
+            for attr in ("__metadata_include__", "__metadata_exclude__"):
+                for nm in k.__dict__.get(attr, ()):
+                    if isinstance(nm, str) and nm not in out:
+                        out.append(nm)
+        return out
 
     def setup(self, S, case):
         obj, dims = _make(S, case["kind"])
-        name = NAMES[case["kind"]][case["nclass"]]
+        if case["nclass"] == "listed":
+            name = case["listed"]
+            # classify the listed name by what it looks like (this is what decides the expected routing)
+            if hasattr(type(obj), name):
+                case = dict(case, nclass="member")
+            elif name.startswith("_"):
+                case = dict(case, nclass="private")
+            elif name in dims:
+                case = dict(case, nclass="dim")
+            else:
+                case = dict(case, nclass="public")
+        else:
+            name = NAMES[case["kind"]][case["nclass"]]
         stored = _Sentinel("stored-in-attrs")
         other = _Sentinel("other-entry")
         obj.attrs["keepme"] = other
         if case["in_attrs"]:
             obj.attrs[name] = stored           # put there directly, bypassing attribute syntax
         return {"obj": obj, "dims": dims, "attr": name, "stored": stored, "other": other,
-                "attrs0": dict(obj.attrs), "new": _Sentinel("assigned")}
+                "attrs0": dict(obj.attrs), "new": _Sentinel("assigned"), "case": case}
 
     def call(self, fn, env):
         obj, name, op = env["obj"], env["attr"], env["case"]["op"]
@@ -99,6 +132,7 @@ class AttrRouting(Contract):
         return out
 
     def post(self, S, case, env, result):
+        case = env["case"]            # (a name taken from an include / exclude list has been classified in setup)
         obj, name, op, nclass = env["obj"], env["attr"], case["op"], case["nclass"]
         attrs0, stored = env["attrs0"], env["stored"]
         routed_to_attrs = nclass == "public"
